@@ -29,6 +29,18 @@ def load_catalog():
                 with open(mp) as fh:
                     meta = json.load(fh)
                 muts.append({"id": "S-" + d, "props": [meta["property"]], "what": meta["change"], "expect": [""], "patch": pp})
+    # behaviour-preserving refactorings written by sub-agents (probes/<id>/patch.diff): negative controls; a probe that still fires is a
+    # known fail-closed case (DESIGN 0.8) and shows up as FALSE-ALARM in the informational self-test
+    pd = os.path.join(F.VERIF, "probes")
+    if os.path.isdir(pd):
+        for d in sorted(os.listdir(pd)):
+            mp = os.path.join(pd, d, "meta.json")
+            pp = os.path.join(pd, d, "patch.diff")
+            if os.path.exists(mp) and os.path.exists(pp):
+                with open(mp) as fh:
+                    meta = json.load(fh)
+                props = sorted({meta["anchored_property"]} | set(meta.get("checks_firing", {})))
+                muts.append({"id": "R-" + d, "props": props, "what": "refactoring (no behaviour change): " + meta.get("what", ""), "expect": None, "patch": pp})
     return muts
 
 
